@@ -359,6 +359,18 @@ func (s *StateMachine) SlashValidator(validator *Validator, chainId, percent uin
 		if err = s.EventSlash(validator.Address, slashAmount); err != nil {
 			return err
 		}
+		// remove the unstaking / paused markers that reference the validator, otherwise the end block
+		// actions at those heights fail on the missing validator and the block can't be produced
+		if validator.UnstakingHeight != 0 {
+			if err = s.Delete(KeyForUnstaking(validator.UnstakingHeight, addr)); err != nil {
+				return err
+			}
+		}
+		if validator.MaxPausedHeight != 0 {
+			if err = s.Delete(KeyForPaused(validator.MaxPausedHeight, addr)); err != nil {
+				return err
+			}
+		}
 		// DeleteValidator subtracts from staked supply
 		return s.DeleteValidator(validator)
 	}
